@@ -303,11 +303,22 @@ def run_case(case):
         # as two slices of one buffer are)
         asview = (sum(case["rs"]) // 6) % 2 == 1
         if z is not None and lam > 0:
-            kw["x"] = x0 = (z[...] if asview else z)
+            if asview:
+                # two distinct view objects of a third array (x = vol[k], z = vol[k])
+                vol_ = np.stack([z, z])
+                kw["z"] = z = vol_[1]
+                kw["x"] = x0 = vol_[1]
+            else:
+                kw["x"] = x0 = z
             alias = "z-is-x" + ("-view" if asview else "")
         elif list(yshape) == list(xshape):
             y_call = y.copy()
-            kw["x"] = x0 = (y_call[...] if asview else y_call)
+            if asview:
+                vol_ = np.stack([y_call, y_call])
+                y_call = vol_[0]
+                kw["x"] = x0 = vol_[0]
+            else:
+                kw["x"] = x0 = y_call
             alias = "x-is-y" + ("-view" if asview else "")
         if alias:
             sig += "|" + alias
@@ -379,7 +390,7 @@ def run_case(case):
         kw2.update(lamda=lam2)
         for key in ("alpha", "tau", "sigma", "x", "P"):
             kw2.pop(key, None)
-        if alias.startswith("z-is-x"):
+        if alias and alias.startswith("z-is-x"):
             kw2["z"] = zv.reshape(z.shape).copy()   # (the caller's z now holds the solution)
         if G is None:
             xref2, cert2 = OPT.solve_composite(Am, yv, g, mu=lam2, z=zv)
